@@ -214,6 +214,17 @@ def run_case(seed):
         pf = gen.gen_deep_plotfile(rng, nlevels=rng.choice([11, 12, 13]), ndims=rng.choice([2, 3]), nfields=rng.randint(1, 3))
     else:
         pf = gen.gen_plotfile(rng, allow_repeat=True, max_blocks=rng.choice([2, 3]), odd_names=0.25)
+    rsh = random.Random(seed * 7919 + 5)
+    if rsh.random() < 0.3:
+        # an index space that does not start at zero (AMReX allows any integer box; the reader only has to hand back
+        # what the FAB holds): boxes with negative corners. The domain keeps a positive high corner: the reader derives
+        # its grid sizes from it alone (hi + 1) and refuses a domain that lies wholly below zero
+        gen.shift_index_space(pf, [-pf.bf * rsh.randint(0, max(0, pf.n0[d] // pf.bf - 1)) for d in range(pf.ndims)])
+        count(f"index space shifted below zero={any(pf.dom_lo0)}")
+    # the number of workers the pool stand-in assumes (multiprocessing.Pool.map sends ceil(n / (4 * workers)) tasks per
+    # pickle: with few workers several tasks of one selection share their argument objects)
+    core.CPool.policy['processes'] = rsh.choice([None, None, 1, 1, 2])
+    count(f"workers assumed by the pool stand-in={core.CPool.policy['processes'] or 'all CPUs'}")
     keys = reader_keys(pf.fields)
     path = core.scratch_dir(f"c01_{seed}")
     gen.write_plotfile(pf, path)
